@@ -491,6 +491,13 @@ class Ctx:
         rng2 = (lambda k: And(I(k) >= I(lo), I(k) <= I(hi))) if hi is not None else (lambda k: I(k) >= I(lo))
         self.assume(Forall(lambda k: Implies(rng2(k), P(k)), triggers=[trigger], name=oid))
 
+    @staticmethod
+    def oid_key(oid):
+        """what identifies an obligation across trees: its id without the readable abbreviation of the statement (which contains local
+        variable names); the hash that follows is computed with the locals anonymised"""
+        import re
+        return re.sub(r"#[A-Za-z0-9_]*~", "#~", oid)
+
     def stable_id(self, oid):
         """absolute line numbers in obligation ids -> function-relative (stable under edits elsewhere)"""
         import re
